@@ -19,6 +19,10 @@ type byteField struct {
 	what   string // shape of the source / destination role
 }
 
+// deepFields: the String() of fields found in an unexported helper of the scanned function, not in the
+// function itself (set by byteWrites, consulted by layoutIs)
+var deepFields = map[string]bool{}
+
 func (b byteField) String() string { return fmt.Sprintf("[%s:%s]%s(%s)", b.lo, b.hi, b.how, b.what) }
 
 func offShape(v ssa.Value) string {
@@ -34,6 +38,39 @@ func offShape(v ssa.Value) string {
 // sliceBounds returns base and bounds of a slice expression value (or the value itself with open bounds).
 func sliceBounds(v ssa.Value) (base ssa.Value, lo, hi string) {
 	if sl, ok := v.(*ssa.Slice); ok {
+		// a slice of a slice with constant bounds is a slice of the underlying buffer: data := raw[:16];
+		// data[8:] is raw[8:16]
+		if inner, ok := sl.X.(*ssa.Slice); ok && !isMakeSlice(inner) {
+			ib, ilo, ihi := sliceBounds(inner)
+			atoi := func(s string) (int64, bool) {
+				if s == "" {
+					return 0, true
+				}
+				n, err := strconv.ParseInt(s, 10, 64)
+				return n, err == nil
+			}
+			if a, ok1 := atoi(ilo); ok1 {
+				l, okL := constInt(sl.Low)
+				if sl.Low == nil {
+					l, okL = 0, true
+				}
+				if okL {
+					alo := fmt.Sprint(a + l)
+					if a+l == 0 && ilo == "" && sl.Low == nil {
+						alo = ""
+					}
+					ahi := ihi
+					if sl.High != nil {
+						if h, ok := constInt(sl.High); ok {
+							ahi = fmt.Sprint(a + h)
+						} else {
+							return sl.X, offShape(sl.Low), offShape(sl.High)
+						}
+					}
+					return ib, alo, ahi
+				}
+			}
+		}
 		return sl.X, offShape(sl.Low), offShape(sl.High)
 	}
 	return v, "", ""
@@ -42,6 +79,95 @@ func sliceBounds(v ssa.Value) (base ssa.Value, lo, hi string) {
 // byteWrites lists the writes into byte buffers in f: PutUintN(b[lo:hi], x), copy(b[lo:hi], x), b[i] = x.
 func (c *Ctx) byteWrites(f *ssa.Function) []byteField {
 	var out []byteField
+	// the buffer may be filled in f or in an unexported helper f calls (handshakeRequest(...)): read both
+	for _, g := range c.deepFns(f) {
+		for _, w := range c.byteWritesOf(g) {
+			if g != f {
+				deepFields[fnName(f)+"|"+w.String()] = true
+			}
+			out = append(out, w)
+		}
+	}
+	return out
+}
+
+// srcShape: the shape of a written value; a parameter of a helper with one call site is shown as the
+// argument it stands for (copy(req[32:64], pub) in the helper is copy(req[32:64], keys.public)).
+func srcShape(v ssa.Value) string {
+	for i := 0; i < 3; i++ {
+		prm, ok := stripConv(v).(*ssa.Parameter)
+		if !ok {
+			break
+		}
+		h := plainHelper(prm.Parent())
+		if h == nil || len(gCallSites[h]) != 1 {
+			break
+		}
+		idx := -1
+		for j, q := range h.Params {
+			if q == prm {
+				idx = j
+			}
+		}
+		args := gCallSites[h][0].Common().Args
+		if idx < 0 || idx >= len(args) {
+			break
+		}
+		v = args[idx]
+	}
+	return shape(v, 3)
+}
+
+func (c *Ctx) byteWritesOf(f *ssa.Function) []byteField {
+	var out []byteField
+	// buffers grown from length 0 by appends of constant-size pieces (make([]byte, 0, N);
+	// b = binary.LittleEndian.AppendUint32(b, x); b = append(b, arr[:]...)): each piece lands at the
+	// running length, which is a constant - the same layout as PutUint32(b[:4], x); copy(b[4:36], arr[:])
+	off := map[ssa.Value]int64{}
+	pos := func(k int64) string {
+		if k == 0 {
+			return ""
+		}
+		return fmt.Sprint(k)
+	}
+	allInstrs(f, func(_ *ssa.BasicBlock, in ssa.Instruction) {
+		switch x := in.(type) {
+		case *ssa.MakeSlice:
+			if k, ok := constInt(x.Len); ok && k == 0 {
+				off[x] = 0
+			}
+		case *ssa.Slice:
+			if al, ok := x.X.(*ssa.Alloc); ok && al.Heap && al.Comment == "makeslice" {
+				if k, ok := constInt(x.High); ok && k == 0 {
+					off[x] = 0
+				}
+			}
+		case *ssa.Call:
+			q := callQName(&x.Call)
+			if strings.HasPrefix(q, "encoding/binary.") && strings.Contains(q, ".AppendUint") {
+				if o, ok := off[x.Call.Args[1]]; ok {
+					end := "LE"
+					if strings.Contains(q, "bigEndian") {
+						end = "BE"
+					}
+					bits := q[strings.LastIndex(q, "AppendUint")+10:]
+					n, _ := strconv.Atoi(bits)
+					out = append(out, byteField{pos(o), fmt.Sprint(o + int64(n/8)), end + bits, srcShape(x.Call.Args[2])})
+					off[x] = o + int64(n/8)
+				}
+			}
+			if b, ok := x.Call.Value.(*ssa.Builtin); ok && b.Name() == "append" && len(x.Call.Args) == 2 {
+				if o, ok := off[x.Call.Args[0]]; ok {
+					if sl, ok := x.Call.Args[1].(*ssa.Slice); ok && sl.Low == nil && sl.High == nil {
+						if n, ok := arrayLen(sl.X.Type()); ok {
+							out = append(out, byteField{pos(o), fmt.Sprint(o + n), "copy", srcShape(x.Call.Args[1])})
+							off[x] = o + n
+						}
+					}
+				}
+			}
+		}
+	})
 	allInstrs(f, func(_ *ssa.BasicBlock, in ssa.Instruction) {
 		switch x := in.(type) {
 		case *ssa.Call:
@@ -53,16 +179,16 @@ func (c *Ctx) byteWrites(f *ssa.Function) []byteField {
 				}
 				bits := q[strings.LastIndex(q, "PutUint")+7:]
 				_, lo, hi := sliceBounds(x.Call.Args[1])
-				out = append(out, byteField{lo, hi, end + bits, shape(x.Call.Args[2], 3)})
+				out = append(out, byteField{lo, hi, end + bits, srcShape(x.Call.Args[2])})
 			}
 			if b, ok := x.Call.Value.(*ssa.Builtin); ok && b.Name() == "copy" {
 				_, lo, hi := sliceBounds(x.Call.Args[0])
-				out = append(out, byteField{lo, hi, "copy", shape(x.Call.Args[1], 3)})
+				out = append(out, byteField{lo, hi, "copy", srcShape(x.Call.Args[1])})
 			}
 		case *ssa.Store:
 			if ia, ok := x.Addr.(*ssa.IndexAddr); ok && isByte(x.Val.Type()) {
 				if k, ok := constInt(ia.Index); ok {
-					out = append(out, byteField{fmt.Sprint(k), fmt.Sprint(k + 1), "byte", shape(x.Val, 3)})
+					out = append(out, byteField{fmt.Sprint(k), fmt.Sprint(k + 1), "byte", srcShape(x.Val)})
 				}
 			}
 		}
@@ -73,7 +199,7 @@ func (c *Ctx) byteWrites(f *ssa.Function) []byteField {
 // byteReads lists reads from byte buffers: UintN(b[lo:hi]), b[lo:hi] slices, b[i] loads.
 func (c *Ctx) byteReads(f *ssa.Function) []byteField {
 	var out []byteField
-	allInstrs(f, func(_ *ssa.BasicBlock, in ssa.Instruction) {
+	c.allInstrsDeep(f, func(_ *ssa.BasicBlock, in ssa.Instruction) {
 		switch x := in.(type) {
 		case *ssa.Call:
 			q := callQName(&x.Call)
@@ -125,7 +251,9 @@ func (c *Ctx) layoutIs(rule, key string, f *ssa.Function, got []byteField, want 
 	}
 	var extra []string
 	for i, g := range got {
-		if !used[i] {
+		// writes of helpers that are not part of this layout (a helper building its own small buffer) are not
+		// this function's fields; a helper's write counts when it supplies a field the layout asks for
+		if !used[i] && !deepFields[fnName(f)+"|"+g.String()] {
 			extra = append(extra, g.String())
 		}
 	}
@@ -401,4 +529,10 @@ func (c *Ctx) assembled(f *ssa.Function, v ssa.Value) []string {
 func constInt64Str(s string) (int64, bool) {
 	k, err := strconv.ParseInt(s, 10, 64)
 	return k, err == nil
+}
+
+// isMakeSlice: the slice go/ssa builds for make([]T, K) with constant K (a whole new array).
+func isMakeSlice(sl *ssa.Slice) bool {
+	al, ok := sl.X.(*ssa.Alloc)
+	return ok && al.Heap && al.Comment == "makeslice"
 }
